@@ -4,6 +4,8 @@ import (
 	"context"
 	"fmt"
 	"math"
+	"os"
+	"path/filepath"
 	"strings"
 
 	zed "github.com/brimdata/super"
@@ -248,8 +250,27 @@ func genPoolSpec(r *rt.Rand, name string) lk.PoolSpec {
 }
 
 // newMemLake creates a lake with one pool on a fresh in-memory engine.
+// newBacking returns a fresh in-memory backing store or, with real set, a
+// fresh scratch directory (under $TMPDIR, which the driver points below
+// /verif/.cache) that engines drive through the repository's file engine.
+func newBacking(real bool) store.Backing {
+	if !real {
+		return store.NewMem()
+	}
+	d, err := store.NewDir(filepath.Join(os.TempDir(), "realfs"))
+	if err != nil {
+		panic(err)
+	}
+	return d
+}
+
 func newMemLake(ctx context.Context, fileLike bool, spec lk.PoolSpec) (*store.Engine, *lk.Lake, *lk.Model, error) {
-	eng := store.New(store.NewMem(), fileLike)
+	return newLakeOn(ctx, store.NewMem(), fileLike, spec)
+}
+
+// newLakeOn creates a lake with one pool on the given backing store.
+func newLakeOn(ctx context.Context, b store.Backing, fileLike bool, spec lk.PoolSpec) (*store.Engine, *lk.Lake, *lk.Model, error) {
+	eng := store.New(b, fileLike)
 	l, err := lk.Create(ctx, eng)
 	if err != nil {
 		return nil, nil, nil, fmt.Errorf("lake create: %w", err)
